@@ -58,6 +58,9 @@ func eval(c Case) *pbt.Fail {
 				c.Req.Entry, wd, 2*wd, n, r2.PanicFrame)
 		}
 	}
+	if c.Loops > 0 && n >= 32 {
+		rec.Sample(c.Origin, worker.Render(c.Req, c.Origin, c.Ops, r))
+	}
 	if r.Died || r.Panic != "" {
 		rec.Class("crashed(C01)", 1)
 		return nil // crashes are C01's subject
